@@ -13,7 +13,7 @@ THEOREMS = ["C13_model_smoke", "C13_no_wedge_all_schedules", "C13_current_handle
             "C13_parked_task_holds_no_map_lock", "C13_timeout_releases_locks", "C13_guard_across_await_deadlock_refuted", "C13_old_handler_undisciplined", "C13_source_no_map_guard_across_await",
             "C13_deadlock_free_from_every_reachable_state", "C13_current_handlers_deadlock_free", "C13_progress_or_done", "C13_extended_invariant_preserved",
             "C13_deadlock_free_smoke", "C13_source_one_channel_lock_at_a_time", "C13_message_pool_never_exhausted", "C13_source_write_budget",
-            "C13_source_lock_programs_disciplined", "C13_source_handlers_never_wedge", "C13_source_handlers_deadlock_free", "C13_source_lock_programs_cover"]
+            "C13_source_lock_programs_disciplined", "C13_source_handlers_never_wedge", "C13_source_handlers_deadlock_free", "C13_source_lock_programs_cover", "C13_idle_connection_has_its_whole_window", "C13_source_inflight_decrements_live_counter"]
 
 REQS = {
     "JOIN_new": lambda i: sl.frame("JOIN", [("id", i), ("channel", "!c3@localhost")]),
@@ -31,7 +31,7 @@ REQS = {
     "SET_CONFIG": lambda i: sl.frame("SET_CHAN_CONFIG", [("id", i), ("channel", "!c1@localhost"), ("max_clients", 5), ("max_payload_size", 0)]),
     "GET_CONFIG": lambda i: sl.frame("GET_CHAN_CONFIG", [("id", i), ("channel", "!c1@localhost")]),
 }
-PATTERNS = ["ok", "park1_release", "park1_never", "park2_reverse", "err1", "park1_err"]
+PATTERNS = ["ok", "park1_release", "park1_never", "park2_reverse", "park2_inorder", "err1", "park1_err"]
 REQUEST_TIMEOUT = 2000
 MAX_INFLIGHT = 6
 
@@ -51,7 +51,7 @@ def build_case(prog, pattern, second=None):
     conn(1, "alice", ["!c1@localhost", "!c2@localhost"])
     conn(2, "bob", ["!c1@localhost"])
     script = {"ok": [], "park1_release": [{"park": 1}], "park1_never": [{"park": 1}], "park2_reverse": [{"park": 1}, {"park": 2}],
-              "err1": ["err"], "park1_err": [{"park": 1}]}[pattern]
+              "park2_inorder": [{"park": 1}, {"park": 2}], "err1": ["err"], "park1_err": [{"park": 1}]}[pattern]
     data = b"".join(REQS[name](100 + i) for i, name in enumerate(prog))
     ops.append({"t": "send", "k": 1, "bytes": data.hex(), "script": script, "program": True})
     if second:
@@ -63,6 +63,9 @@ def build_case(prog, pattern, second=None):
     elif pattern == "park2_reverse":
         ops.append({"t": "release", "id": 2, "outcome": "ok"})
         ops.append({"t": "release", "id": 1, "outcome": "ok"})
+    elif pattern == "park2_inorder":
+        ops.append({"t": "release", "id": 1, "outcome": "ok"})
+        ops.append({"t": "release", "id": 2, "outcome": "ok"})
     ops.append({"t": "advance", "ms": REQUEST_TIMEOUT + 500, "deadline": True})
     # canary: other connections and new connections are still served
     ops.append({"t": "send", "k": 2, "bytes": sl.frame("CHANNELS", [("id", 900)]).hex(), "canary": "bob"})
@@ -74,6 +77,12 @@ def build_case(prog, pattern, second=None):
     # slots: a full window of pipelined requests on the program's connection must still be accepted
     burst = b"".join(sl.frame("CHANNELS", [("id", 300 + i)]) for i in range(MAX_INFLIGHT))
     ops.append({"t": "send", "k": 1, "bytes": burst.hex(), "slots": True})
+    # ... and a full window of requests that are all IN FLIGHT AT ONCE (each suspended in its own modulator call): every one
+    # of them must be admitted — an in-flight counter that drifted upwards refuses the last ones and drops the connection
+    wave = b"".join(sl.frame("JOIN", [("id", 400 + i), ("channel", "!w%d@localhost" % i)]) for i in range(MAX_INFLIGHT))
+    ops.append({"t": "send", "k": 1, "bytes": wave.hex(), "script": [{"park": 10 + i} for i in range(MAX_INFLIGHT)], "wave": True})
+    for i in range(MAX_INFLIGHT):
+        ops.append({"t": "release", "id": 10 + i, "outcome": "ok", "wave_release": i == MAX_INFLIGHT - 1})
     return {"cfg": cfg, "ops": ops, "prog": list(prog), "pattern": pattern, "second": second}
 
 
@@ -107,6 +116,8 @@ def analyse(case, rc, ob, known, known_seen):
         return v
     ops = case["ops"]
     closed1 = False
+    closed_before_wave = False
+    wave_acks, wave_reported = set(), False
     answered = set()
     deadline_passed = False
     prog_ids = [100 + i for i in range(len(case["prog"]))]
@@ -144,6 +155,15 @@ def analyse(case, rc, ob, known, known_seen):
                 v.append(f"a full window of {MAX_INFLIGHT} pipelined requests is refused after the program: in-flight slots were not returned ({case['prog']}, {case['pattern']})")
             elif len(got) != MAX_INFLIGHT:
                 v.append(f"only {len(got)} of {MAX_INFLIGHT} window requests answered after the program ({case['prog']}, {case['pattern']})")
+        if (op.get("wave") or "wave_release" in op) and not closed_before_wave:
+            wave_acks |= {sl.frame_get(f, "id") for f in frames_of(o, 1) if sl.frame_name(f) == "JOIN_ACK" and (sl.frame_get(f, "id") or 0) >= 400}
+            if c1 and c1["closed"] and not wave_reported:
+                wave_reported = True
+                v.append(f"a window of {MAX_INFLIGHT} requests in flight at once is not admitted after the program (the connection is dropped): the in-flight counter no longer returns to zero ({case['prog']}, {case['pattern']})")
+            if op.get("wave_release") and not wave_reported and len(wave_acks) != MAX_INFLIGHT:
+                v.append(f"only {len(wave_acks)} of {MAX_INFLIGHT} requests that were in flight at once were answered after the program ({case['prog']}, {case['pattern']})")
+        if op.get("slots"):
+            closed_before_wave = closed1
     return v
 
 
@@ -195,6 +215,8 @@ def run(tier, replay=None):
                 ("LEAVE_owner", "MEMBERS"), ("LEAVE_owner", "BROADCAST"), ("JOIN_new", "JOIN_new"), ("JOIN_behalf", "LEAVE_member"),
                 ("JOIN_behalf", "JOIN_c2"), ("LEAVE_member", "CHANNELS")]
         must += [(pq, pat, None) for pq in same for pat in ("park1_release", "park1_never", "park1_err")]
+        # two requests of one connection suspended together and answered in the order they arrived
+        must += [(pq, "park2_inorder", None) for pq in (("JOIN_new", "JOIN_new"), ("LEAVE_member", "JOIN_behalf"), ("BROADCAST", "BROADCAST"), ("JOIN_new", "BROADCAST"))]
         must += [(("LEAVE_member",), "park1_release", "JOIN_c2"), (("LEAVE_member",), "park1_never", "JOIN_behalf"), (("JOIN_new",), "park1_release", "JOIN_new")]
         if thorough:
             sel = must + allc + triples
